@@ -43,7 +43,7 @@ Proof. apply filter_ext. exact exposedb_gen_spec. Qed.
 (* the regenerated title and description functions on the modelled domain: `qualname ['dest']`, the class docstring *)
 Lemma title_gen_spec w : title title_gen w = spec_title w.
 Proof.
-  unfold title, spec_title, title_gen. cbn [map String.concat]. rewrite !append_assoc. reflexivity.
+  unfold title, spec_title, title_gen. reflexivity.
 Qed.
 
 (* the regenerated DataclassWrapper.description is the documented rule, for ALL inputs (not only the modelled domain) *)
@@ -179,7 +179,7 @@ Proof.
 Qed.
 
 Definition W_autodoc : list hwrap :=
-  [mkhw "A" ["a"] "A(x: int = 1, secret: str = 'hunter2')"
+  [mkhw "A" ["a"] [] "A(x: int = 1, secret: str = 'hunter2')"
         [mkhf (mkfw ["a"] "x" "" [] false) true None "" (Some "1") false;
          mkhf (mkfw ["a"] "secret" "" [] false) true (Some false) "" (Some "hunter2") false]].
 
@@ -279,7 +279,7 @@ Proof.
   apply cli_help_of_true.
 Qed.
 
-Definition W_ab : list hwrap := [mkhw "K" ["a"] "Doc." [mkhf (mkfw ["a"] "bb" "" ["cc"] false) true None "" (Some "1") false]].
+Definition W_ab : list hwrap := [mkhw "K" ["a"] [] "Doc." [mkhf (mkfw ["a"] "bb" "" ["cc"] false) true None "" (Some "1") false]].
 
 (* with a hash-ordered set, two valid oracles print two different entry lists for one field with two equal-length spellings *)
 Theorem deterministic_refuted :
@@ -296,9 +296,9 @@ Qed.
 (* worse: which option strings exist at all depends on the oracle, because the conflict resolver repairs the first
    clash it meets.  a.ab (alias cd), b.cd, c.ab: under one order `--cd` belongs to b.cd, under the other it does not exist *)
 Definition W_clash : list hwrap :=
-  [mkhw "A" ["a"] "Doc." [mkhf (mkfw ["a"] "ab" "" ["cd"] false) true None "" (Some "1") false];
-   mkhw "B" ["b"] "Doc." [mkhf (mkfw ["b"] "cd" "" [] false) true None "" (Some "1") false];
-   mkhw "C" ["c"] "Doc." [mkhf (mkfw ["c"] "ab" "" [] false) true None "" (Some "1") false]].
+  [mkhw "A" ["a"] [] "Doc." [mkhf (mkfw ["a"] "ab" "" ["cd"] false) true None "" (Some "1") false];
+   mkhw "B" ["b"] [] "Doc." [mkhf (mkfw ["b"] "cd" "" [] false) true None "" (Some "1") false];
+   mkhw "C" ["c"] [] "Doc." [mkhf (mkfw ["c"] "ab" "" [] false) true None "" (Some "1") false]].
 
 Definition accepted_of (r : helprun) : list string :=
   match r_printed r with Some (_, gs) => map fst (registered gs) | None => [] end.
@@ -488,7 +488,7 @@ Qed.
 
 (* the forest used by the non-vacuity example of Properties/C16.v *)
 Definition demo_forest : list hwrap :=
-  [mkhw "K1" ["a"] "Doc of K1." [mkhf (mkfw ["a"] "bb" "" ["cc"] false) true (Some true) "the value" (Some "1") false;
+  [mkhw "K1" ["a"] [] "Doc of K1." [mkhf (mkfw ["a"] "bb" "" ["cc"] false) true (Some true) "the value" (Some "1") false;
                     mkhf (mkfw ["a"] "hid" "" [] false) true (Some false) "secret" (Some "9") false;
                     mkhf (mkfw ["a"] "x" "" [] false) true None "" None false]].
 
